@@ -6,6 +6,7 @@ import (
 	"encoding/json"
 	"fmt"
 	"os"
+	"path"
 	"path/filepath"
 	"sort"
 	"strconv"
@@ -225,7 +226,7 @@ func (c *Ctx) Finish() int {
 	for _, v := range c.violations {
 		matched := ""
 		for _, k := range known {
-			if k.Status == "open" && k.Property == c.Prop && k.Monitor == v.Monitor && k.Class == v.Class {
+			if k.Status == "open" && k.Property == c.Prop && k.Monitor == v.Monitor && classMatches(k.Class, v.Class) {
 				matched = k.ID
 				break
 			}
@@ -337,4 +338,13 @@ func PickD[T any](cond bool, a, b T) T {
 		return a
 	}
 	return b
+}
+
+// classMatches compares a scenario class with the class pattern of a known finding ('*' matches any run of characters).
+func classMatches(pattern, class string) bool {
+	if pattern == class {
+		return true
+	}
+	ok, err := path.Match(pattern, class)
+	return err == nil && ok
 }
